@@ -86,15 +86,22 @@ func StringHexToScalar(group kyber.Group, str string) (kyber.Scalar, error) {
 func getHex(r io.Reader, l int) ([]byte, error) {
 	bufHex := make([]byte, l*2)
 	bufByte := make([]byte, l)
-	n, err := r.Read(bufHex)
-	if err != nil {
-		return nil, err
+	// a Reader may deliver fewer bytes than asked for without being exhausted:
+	// keep reading until the encoding is complete, the stream ends or stalls
+	for got := 0; got < len(bufHex); {
+		n, err := r.Read(bufHex[got:])
+		got += n
+		if got == len(bufHex) {
+			break
+		}
+		if err != nil && got == 0 {
+			return nil, err
+		}
+		if err != nil || n == 0 {
+			return nil, errors.New("didn't get enough bytes from stream")
+		}
 	}
-	if n < len(bufHex) {
-		return nil, errors.New("didn't get enough bytes from stream")
-	}
-	_, err = hex.Decode(bufByte, bufHex)
-	if err != nil {
+	if _, err := hex.Decode(bufByte, bufHex); err != nil {
 		return nil, err
 	}
 	return bufByte, nil
